@@ -325,7 +325,10 @@ fn c08(seed: u64, cases: usize, _model_path: &str, thorough: bool) -> serde_json
         if samples.len() < 3 { samples.push(json!({"case": desc, "victim": short(o)})); }
     }
     // structure-aware classes on nested vectors
-    let nested: Vec<(&str, &str)> = vec![("fashare ver", "inner_empty"), ("fashare ver", "inner_short"), ("dvalue", "bits_short"), ("dvalue", "macs_short"), ("preprocessed gates", "rows_empty"), ("preprocessed gates", "rows_corrupt"), ("labels", "label_flip"), ("CO_OT_r", "point_invalid"), ("ALSZ_OT_setup", "rows_short")];
+    let nested: Vec<(&str, &str)> = vec![("fashare ver", "inner_empty"), ("fashare ver", "inner_short"), ("dvalue", "bits_short"), ("dvalue", "macs_short"), ("preprocessed gates", "rows_empty"), ("preprocessed gates", "rows_corrupt"), ("labels", "label_flip"), ("CO_OT_r", "point_invalid"), ("ALSZ_OT_setup", "rows_short"),
+        // optional fields present where they should be absent, and absent where they should be present, in every `Vec<Option<_>>` message
+        ("masked inputs", "opt_extra_noninput"), ("masked inputs", "opt_all_some"), ("masked inputs", "opt_all_none"), ("wire shares", "opt_all_some"), ("wire shares", "opt_all_none"),
+        ("labels", "opt_all_some"), ("labels", "opt_all_none"), ("output wire shares", "opt_all_some"), ("output wire shares", "opt_all_none"), ("lambda", "opt_all_some"), ("lambda", "opt_all_none")];
     for (ph0, cl) in nested { for pe in 0..2 {
         let ph1 = ph0.to_string(); let cls = cl.to_string();
         let m: exec::Mutator = Box::new(move |from, _to, ph, kk, d| { if from != 1 || ph != ph1 || kk != 0 { return Some(d); }
@@ -338,6 +341,13 @@ fn c08(seed: u64, cases: usize, _model_path: &str, thorough: bool) -> serde_json
                 "rows_corrupt" => { let mut v: Vec<[Vec<u8>; 4]> = de(&d); for g in v.iter_mut() { for row in g.iter_mut() { row[2] ^= 0x10; } } ser(&v) }
                 "label_flip" => { let mut v: Vec<Option<u128>> = de(&d); for e in v.iter_mut().flatten() { *e ^= 1; } ser(&v) }
                 "point_invalid" => { let mut v: Vec<Vec<u8>> = de(&d); for x in v.iter_mut() { for b in x.iter_mut() { *b = 0xff; } } ser(&v) }
+                "opt_extra_noninput" => { let mut v: Vec<Option<bool>> = de(&d); let k = v.len() - 1; v[k] = Some(true); ser(&v) }       // register 2 is not an input wire
+                "opt_all_some" => match ph { "masked inputs" => { let v: Vec<Option<bool>> = de(&d); ser(&v.into_iter().map(|e| e.or(Some(true))).collect::<Vec<_>>()) }
+                    "labels" => { let v: Vec<Option<u128>> = de(&d); ser(&v.into_iter().map(|e| e.or(Some(5))).collect::<Vec<_>>()) }
+                    _ => { let v: Vec<Option<(bool, u128)>> = de(&d); ser(&v.into_iter().map(|e| e.or(Some((true, 5)))).collect::<Vec<_>>()) } },
+                "opt_all_none" => match ph { "masked inputs" => { let v: Vec<Option<bool>> = de(&d); ser(&v.into_iter().map(|_| None::<bool>).collect::<Vec<_>>()) }
+                    "labels" => { let v: Vec<Option<u128>> = de(&d); ser(&v.into_iter().map(|_| None::<u128>).collect::<Vec<_>>()) }
+                    _ => { let v: Vec<Option<(bool, u128)>> = de(&d); ser(&v.into_iter().map(|_| None::<(bool, u128)>).collect::<Vec<_>>()) } },
                 _ => { let v: Vec<Vec<u8>> = de(&d); ser(&v.iter().map(|x| x[..1].to_vec()).collect::<Vec<_>>()) } }) });
         let run = exec::run(&c, &mk(pe), &cfg, Some(m)); execs += 1; let o = &run.outs[0];
         *dist.entry(format!("class:{cl}")).or_default() += 1; distinct.insert((pe, ph0.to_string(), cl, okind(o)));
@@ -668,6 +678,7 @@ fn c06(seed: u64, cases: usize, _model_path: &str, which: &str) -> serde_json::V
     let mut insts: Vec<Inst> = (0..129).map(|k| Inst { out: Reg(k), op: Op::Input(Input { party: 0, input: k }) }).collect();
     insts.push(Inst { out: Reg(129), op: Op::Input(Input { party: 1, input: 0 }) }); insts.push(Inst { out: Reg(130), op: Op::And(And(Reg(0), Reg(129))) }); insts.push(Inst { out: Reg(130), op: Op::Xor(Xor(Reg(130), Reg(5))) });
     let c = Circuit { input_regs: vec![129, 1], insts, max_reg_count: 131, output_regs: vec![Reg(130)], and_ops: 1 };
+    let mut share_ones = vec![0u64; 129]; let mut share_tot = vec![0u64; 129]; let mut xpos: BTreeMap<(usize, usize), (Vec<u64>, u64)> = BTreeMap::new(); let mut xlen: BTreeMap<(usize, usize), usize> = BTreeMap::new();
     let mut ones = [0u64; 2]; let mut tot = [0u64; 2]; let mut deltas_seen = std::collections::BTreeSet::new(); let mut masks_seen = std::collections::BTreeSet::new();
     for run_i in 0..runs {
         let x = run_i % 2 == 1; let canary: Vec<bool> = (0..128).map(|_| r.bool()).collect(); let mut in0 = vec![x]; in0.extend(&canary);
@@ -684,6 +695,11 @@ fn c06(seed: u64, cases: usize, _model_path: &str, which: &str) -> serde_json::V
         let ws: Vec<Option<(bool, u128)>> = run.payloads.iter().find(|(f, t, ph, _)| *f == 1 && *t == 0 && ph == "wire shares").map(|p| de(&p.3)).unwrap();
         let combined = masked[0].unwrap() ^ ws[0].unwrap().0;              // = x ^ own share: must be balanced for x = 0 and for x = 1
         tot[x as usize] += 1; ones[x as usize] += combined as u64;
+        // ---- every input wire of party 0 (129 wires: indices on both sides of 64 and 128): its own mask share = revealed ^ peer's share ^ input
+        for w in 0..129 { if let (Some(mb), Some(sh)) = (masked[w], ws[w]) { share_ones[w] += (mb ^ sh.0 ^ in0[w]) as u64; share_tot[w] += 1; } }
+        // ---- every position of every drawn aBit string (per party and call): must be balanced over the runs
+        { let mut call: BTreeMap<usize, usize> = BTreeMap::new();
+          for (k, p, v) in taps.iter() { if k == "abit_x" { let ci = { let e = call.entry(*p).or_insert(0); *e += 1; *e - 1 }; if ci < 2 { let e = xpos.entry((*p, ci)).or_insert_with(|| (vec![0u64; 256], 0u64)); for (j, b) in v.iter().take(256).enumerate() { e.0[j] += *b as u64; } e.1 += 1; xlen.insert((*p, ci), v.len().min(256)); } } } }
         // ---- freshness: delta per party per run, mask vector per run
         for (k, p, v) in taps.iter() { if k == "delta" { if !deltas_seen.insert(v[0]) { failures.push(json!({"property": "C06", "witness": "C06:delta-reused", "failure": format!("global key of party {p} in run {run_i} was seen before")})); } }
             if k == "abit_x" && v.len() >= 64 { let key: Vec<u128> = v.iter().take(128).cloned().collect(); if !masks_seen.insert(key) { failures.push(json!({"property": "C06", "witness": "C06:mask-vector-reused", "failure": format!("aBit mask vector of party {p} in run {run_i} was seen before")})); } } }
@@ -716,6 +732,13 @@ fn c06(seed: u64, cases: usize, _model_path: &str, which: &str) -> serde_json::V
     }
     for x in 0..2 { let (nn, k) = (tot[x] as f64, ones[x] as f64); *dist.entry(format!("input{x}:ones={}/{}", ones[x], tot[x])).or_default() += 1;
         if (k - nn / 2.0).abs() > 3.0 * nn.sqrt() { failures.push(json!({"property": "C06", "witness": "C06:unbalanced-mask", "failure": format!("input {x}: revealed^others is 1 in {k} of {nn} runs (6 sigma bound {:.1})", 3.0 * nn.sqrt())})); } }
+    if which == "C06" {
+        let bad_w: Vec<String> = (0..129).filter(|w| { let (k, nn) = (share_ones[*w] as f64, share_tot[*w] as f64); nn >= 50.0 && (k - nn / 2.0).abs() > 3.0 * nn.sqrt() }).map(|w| format!("{w}:{}/{}", share_ones[w], share_tot[w])).collect();
+        if !bad_w.is_empty() { failures.push(json!({"property": "C06", "witness": "C06:unbalanced-mask-wire", "failure": format!("the own mask share of {} of party 0's 129 input wires is not balanced over the runs (wire:ones/runs, 6 sigma): {}", bad_w.len(), bad_w.iter().take(8).cloned().collect::<Vec<_>>().join(" "))})); }
+        for ((p, ci), (cnt, nn)) in &xpos { let nnf = *nn as f64; if nnf < 50.0 { continue; } let len = xlen[&(*p, *ci)];
+            let bad: Vec<String> = (0..len).filter(|j| (cnt[*j] as f64 - nnf / 2.0).abs() > 3.0 * nnf.sqrt()).map(|j| format!("{j}:{}/{}", cnt[j], nn)).collect();
+            *dist.entry("abit_positions_checked".into()).or_default() += len as u64;
+            if !bad.is_empty() { failures.push(json!({"property": "C06", "witness": "C06:unbalanced-abit-position", "failure": format!("party {p}, aBit call {ci}: {} of {len} positions of the drawn bit string are not balanced over the runs (position:ones/runs): {}", bad.len(), bad.iter().take(8).cloned().collect::<Vec<_>>().join(" "))})); } } }
     // dedupe failures by witness+failure text
     let mut seen = std::collections::BTreeSet::new(); failures.retain(|f| seen.insert(f.to_string()));
     json!({"executions": execs, "distinct_nontrivial": distinct.len(), "distribution": dist, "samples": samples, "model_disagreements": [], "impl_vs_oracle_failures": failures})
